@@ -865,6 +865,16 @@ impl World {
     /// every account/contract whose collateral balance is tracked
     pub fn tracked_accounts(&self) -> Vec<String> {
         let mut v: Vec<String> = TRADERS.iter().map(|s| s.to_string()).collect();
+        // accounts named like the tail of a trader's address (address-aliasing attackers)
+        for t in TRADERS.iter() {
+            for k in 1..t.len() {
+                let a = t[k..].to_string();
+                // (queries reject addresses shorter than 3 characters)
+                if a.len() >= 3 && !v.contains(&a) {
+                    v.push(a);
+                }
+            }
+        }
         v.extend(OTHERS.iter().map(|s| s.to_string()));
         v.push(self.engine.to_string());
         v.push(self.insurance.to_string());
